@@ -665,7 +665,7 @@ func (c *FuncCtx) evalBits(st *State, n *ast.CallExpr, name string) []Value {
 	switch name {
 	case "Mul64":
 		x, y := c.evalInt(st, n.Args[0]), c.evalInt(st, n.Args[1])
-		p := Mul(x, y)
+		p := c.product(st, x, y)
 		hi := c.named(st, "mhi", Div(p, W), u64)
 		lo := c.named(st, "mlo", Mod(p, W), u64)
 		return []Value{IntV{hi}, IntV{lo}}
@@ -990,6 +990,19 @@ func (c *FuncCtx) atReturn(st *State, vals []Value) {
 	if len(c.con.Lemmas) > 0 {
 		var facts []*Term
 		lf = append(c.evalHints(st, c.con.Lemmas, mk(&facts), c.con.File), facts...)
+	}
+	for i, cu := range c.con.Cuts {
+		var facts []*Term
+		se := mk(&facts)
+		var by []*Term
+		if len(cu.By) > 0 {
+			by = c.evalHints(st, cu.By, se, cu.Line)
+		}
+		g := se.Bool(cu.Expr)
+		extra := append(append(append([]*Term(nil), lf...), by...), facts...)
+		c.oblige(st, "cut", fmt.Sprintf("%d", i), g, nil, extra...).File = cu.Line
+		lf = append(lf, g)
+		lf = append(lf, facts...)
 	}
 	for i, en := range c.con.Ensures {
 		if en.Derived {
